@@ -21,14 +21,18 @@ class PkgRoot:
         _counter[0] += 1
         return "%s%d_%d" % (stem, os.getpid(), _counter[0])
 
-    def add_component(self, types, name=None):
-        """types: list of F.TypeD / F.AbsD; returns package name"""
+    def add_component(self, types, name=None, imports=()):
+        """types: list of F.TypeD / F.AbsD; imports: package names the component itself imports; returns package name"""
         name = name or self.fresh_name()
         d = os.path.join(self.root, name)
         os.makedirs(d)
         open(os.path.join(d, "__init__.py"), "w").write("# generated\n")
         comp = F.SchemaD([], types)
-        open(os.path.join(d, "component.xml"), "w").write(F.render_xml(comp, toplevel="component"))
+        xml = F.render_xml(comp, toplevel="component")
+        if imports:
+            i = xml.index(">") + 2
+            xml = xml[:i] + "".join("  <import package='%s'/>\n" % q for q in imports) + xml[i:]
+        open(os.path.join(d, "component.xml"), "w").write(xml)
         self.names.append(name)
         return name
 
